@@ -402,6 +402,15 @@ def _run(ctx):
         have_native = have_eq = False
         for c in conds:
             cd = c["cond"]
+            if cd[0] == "discr" and c["allowed"] == ["Ok"] and qden is not None and cd[1][0] == "call" and isinstance(cd[1][3], str) and generic_path(cd[1][3]) == qden.path:
+                # `query_denom_of_native_token(a).map_or(false, |d| d == denom)`: the query is Ok exactly for a native asset (lemma above)
+                m = re.match(r"^%s\.asset_infos\[(\d)\]$" % re.escape(item), "|".join(sorted(ctx.roots(cd[1][4][0]))))
+                if m:
+                    if idx is not None and idx != int(m.group(1)):
+                        extra.append("mixed indices")
+                    idx = int(m.group(1))
+                    have_native = True
+                    continue
             if cd[0] == "discr" and c["allowed"] in (["Continue"], ["Ok"]):
                 continue   # `?` propagation
             if cd[0] == "cmp" and cd[1] == "is_native_token" and c["allowed"] == [True]:
